@@ -441,7 +441,7 @@ PROPS = {
     "C12": {
         "level": "proof",
         "level_prefix": "Partial proof -- contracts discharged without bound on the mechanisms named below, not the whole statement (bounded stand-ins and what is left out are listed): ",
-        "units": ["rrsigdata", "nameorder"],
+        "units": ["rrsigdata", "nameorder", "keytag"],
         "vx_search": {"bin": "c12_search_sign_verify", "crate": "replay_sign", "release": True,
                       "what": "A and MX RRsets under ordinary, wildcard and interior-asterisk owners signed with fresh Ed25519 and ECDSA P-256 keys "
                               "(ring): the RRSIG carries the RFC 4034 3.1.3 label count and verifies over the data RrsigExt::signed_data "
@@ -477,14 +477,19 @@ PROPS = {
                        "than the Labels field. Lemmas over these contracts: what signed_data reconstructs for the RRset handed back in any order, "
                        "with any TTL, with owners in any letter case or expanded from the wildcard owner, is the octet string that was "
                        "signed. The value of the Labels field: ToName::rrsig_label_count (real text, unit nameorder, every name "
-                       "representation). Dnskey::key_tag against an independent transcription of RFC 4034 Appendix B (Kani, bounded, key "
-                       "sizes stated). Timestamp ordering is covered by C17; the canonical name and RDATA orders the signer sorts by are "
+                       "representation). Dnskey::key_tag (unit keytag, real text, the real slice iterator, no bound on the key size): for every DNSKEY "
+                       "within the 65535-octet RDATA limit the result is the RFC 4034 Appendix B computation over flags | protocol | algorithm | "
+                       "public key (octets at even offsets times 256 plus octets at odd offsets, folded once), the 32-bit accumulator cannot "
+                       "overflow, and for algorithm 1 it is the 16 bits before the last key octet (0 for keys shorter than three octets) with no "
+                       "failing unwrap() or index; the same on the compiled code against an independent transcription of Appendix B (Kani, "
+                       "bounded, key sizes stated). Timestamp ordering is covered by C17; the canonical name and RDATA orders the signer sorts by are "
                        "covered by C04 (units nameorder, nsec3order); canonical RDATA per type by C05.",
         "not_covered": "The cryptography (ring/openssl sign and verify: asm/FFI; modelled as 'a signature over exactly these octets'), DS "
                        "digests, tamper rejection beyond what the native search samples, sign_rrset's own sort and the zone-level signing "
                        "loops (sign_sorted_zone_records: key selection, skipping of glue and delegations). "
-                       "Dnskey::key_tag could not be taken to Verus (u16::from_be_bytes / <[u8]>::try_into have no Verus specification), "
-                       "so the u32 accumulator bound for 65535-octet keys is not proved, only checked up to 48 octets.",
+                       "In Dnskey::key_tag the expression u16::from_be_bytes(key[len-3..len-1].try_into().unwrap()) of the RSA/MD5 branch is "
+                       "substituted by a model function (no Verus specification can be attached to from_be_bytes / try_into); the bounded "
+                       "Kani harness c12_key_tag_rsamd5_bounded covers the compiled expression.",
         "assumptions": [
             "integer, Rtype, Class, Ttl, Timestamp and SecurityAlgorithm compose as their big-endian octets (Compose for int_enum!/integers: to_be_bytes)",
             "ToName::compose_canonical appends the lower-cased uncompressed name (RFC 4034 6.2); iter_labels().count() and "
